@@ -94,9 +94,16 @@ pub fn encdict_obj(cfg: &EncCfg, d: &EncDict) -> RObj {
     }
     if d.v >= 4 {
         let mut cf = vec![];
+        // Type is optional in a crypt filter dictionary: one encryption dictionary in four (chosen by a bit pair of
+        // the O entry) leaves it out
+        let typed = d.o.first().map(|b| b & 3 != 0).unwrap_or(true);
         let mut add = |nm: &str, c: Cfm, cf: &mut Vec<(Vec<u8>, RObj)>| {
             if c != Cfm::Identity && !cf.iter().any(|(kk, _): &(Vec<u8>, RObj)| kk == nm.as_bytes()) {
-                cf.push((k(nm), RObj::Dict(vec![(k("Type"), name("CryptFilter")), (k("CFM"), name(cfm_name(c))), (k("AuthEvent"), name("DocOpen")), (k("Length"), RObj::Int(if c == Cfm::AesV3 { 32 } else { 16 }))])));
+                let mut e = vec![(k("CFM"), name(cfm_name(c))), (k("AuthEvent"), name("DocOpen")), (k("Length"), RObj::Int(if c == Cfm::AesV3 { 32 } else { 16 }))];
+                if typed {
+                    e.insert(0, (k("Type"), name("CryptFilter")));
+                }
+                cf.push((k(nm), RObj::Dict(e)));
             }
         };
         let idn: String = cfg.identity_name.as_ref().map(|n| String::from_utf8_lossy(n).to_string()).unwrap_or_else(|| "Identity".into());
